@@ -274,6 +274,84 @@ static void run_c13(long cases) {
     }
 }
 
+// ------------------------------------------------------------------ C11 with the inputs of a combinator settled by different threads
+// (free-running only: whenAll/whenAny have no yield hooks; the windows are widened by a value type whose copy takes a while, and the
+// thread sanitizer sees unordered accesses to the shared result slots whatever the timing)
+struct SlowVal {
+    int v = -1;
+    SlowVal() = default; explicit SlowVal(int x) : v(x) {}
+    SlowVal(const SlowVal& o) : v(o.v) { pause(); }
+    SlowVal(SlowVal&& o) noexcept : v(o.v) {}
+    SlowVal& operator=(const SlowVal& o) { pause(); v = o.v; return *this; }
+    SlowVal& operator=(SlowVal&& o) noexcept { v = o.v; return *this; }
+    static void pause() { if (g_coop) return; double end = now_s() + 15e-6; while (now_s() < end) { } }
+};
+static void run_c11mt(long cases) {
+    for (long i = g_opts.shard; i < cases * g_opts.nshards; i += g_opts.nshards) {
+        if (i <= g_skip) continue;
+        if (((i / g_opts.nshards) % 64) == 0) emit(Json().str("t", "progress").num("i", i).num("stride", 64L * g_opts.nshards).done());
+        int sc = (int)(i % 6);
+        uint64_t seed = g_opts.seed * 1000003ull + (uint64_t)i;
+        set_case(i, Json().num("i", i).str("phase", "c11mt").num("scenario", sc).num("seed", (long long)g_opts.seed).done());
+        std::string name, sym; std::atomic<int> ok{0}, rej{0}, threw{0};
+        auto settle = [&](std::function<void()> f) { return [&threw, f] { try { f(); } catch (...) { threw++; } }; };
+        switch (sc) {
+        case 0: case 1: {   // variadic all-of, 2 or 3 inputs, each fulfilled by its own thread
+            int n = sc == 0 ? 2 : 3; name = "all-of-" + std::to_string(n) + "-inputs-" + std::to_string(n) + "-threads";
+            std::vector<Async::Deferred<SlowVal>> d((size_t)n); std::vector<Async::Promise<SlowVal>> p;
+            for (int k = 0; k < n; k++) p.emplace_back([&, k](Async::Deferred<SlowVal> dd) { d[(size_t)k] = std::move(dd); });
+            int got[3] = {-7, -7, -7};
+            if (n == 2) Async::whenAll(p[0], p[1]).then([&](const std::tuple<SlowVal, SlowVal>& t) { ok++; got[0] = std::get<0>(t).v; got[1] = std::get<1>(t).v; }, [&](std::exception_ptr) { rej++; });
+            else Async::whenAll(p[0], p[1], p[2]).then([&](const std::tuple<SlowVal, SlowVal, SlowVal>& t) { ok++; got[0] = std::get<0>(t).v; got[1] = std::get<1>(t).v; got[2] = std::get<2>(t).v; }, [&](std::exception_ptr) { rej++; });
+            std::vector<std::function<void()>> bodies; for (int k = 0; k < n; k++) bodies.push_back(settle([&, k] { d[(size_t)k].resolve(SlowVal(100 + k)); }));
+            run_free(bodies, seed);
+            if (ok != 1 || rej != 0) sym = ok > 1 ? "fulfil-continuation-ran-twice" : "fulfil-continuation-lost";
+            else for (int k = 0; k < n; k++) if (got[k] != 100 + k) sym = "wrong-value-in-slot-" + std::to_string(k);
+            break; }
+        case 2: {   // iterator all-of over 3 inputs, 3 threads: results in argument order
+            name = "all-of-iterator-3-inputs-3-threads";
+            std::vector<Async::Deferred<SlowVal>> d(3); std::vector<Async::Promise<SlowVal>> p;
+            for (int k = 0; k < 3; k++) p.emplace_back([&, k](Async::Deferred<SlowVal> dd) { d[(size_t)k] = std::move(dd); });
+            std::vector<int> got;
+            Async::whenAll(p.begin(), p.end()).then([&](const std::vector<SlowVal>& v) { ok++; for (auto& x : v) got.push_back(x.v); }, [&](std::exception_ptr) { rej++; });
+            run_free({settle([&] { d[0].resolve(SlowVal(100)); }), settle([&] { d[1].resolve(SlowVal(101)); }), settle([&] { d[2].resolve(SlowVal(102)); })}, seed);
+            if (ok != 1 || rej != 0) sym = ok > 1 ? "fulfil-continuation-ran-twice" : "fulfil-continuation-lost";
+            else if (got != std::vector<int>{100, 101, 102}) sym = "wrong-values-or-order";
+            break; }
+        case 3: {   // any-of, both inputs fulfilled at once: exactly one outcome, nothing thrown into the late settler
+            name = "any-of-2-inputs-2-threads";
+            std::vector<Async::Deferred<int>> d(2); std::vector<Async::Promise<int>> p;
+            for (int k = 0; k < 2; k++) p.emplace_back([&, k](Async::Deferred<int> dd) { d[(size_t)k] = std::move(dd); });
+            std::atomic<int> val{-1};
+            Async::whenAny(p[0], p[1]).then([&](const Async::Any& a) { ok++; val = a.cast<int>(); }, [&](std::exception_ptr) { rej++; });
+            run_free({settle([&] { d[0].resolve(7); }), settle([&] { d[1].resolve(8); })}, seed);
+            if (ok != 1 || rej != 0) sym = ok > 1 ? "fulfil-continuation-ran-twice" : "fulfil-continuation-lost"; else if (val != 7 && val != 8) sym = "wrong-value";
+            break; }
+        case 4: {   // all-of: one input fulfilled, the other rejected, at once: rejection exactly once, no fulfilment
+            name = "all-of-fulfil|reject";
+            std::vector<Async::Deferred<SlowVal>> d(2); std::vector<Async::Promise<SlowVal>> p;
+            for (int k = 0; k < 2; k++) p.emplace_back([&, k](Async::Deferred<SlowVal> dd) { d[(size_t)k] = std::move(dd); });
+            Async::whenAll(p[0], p[1]).then([&](const std::tuple<SlowVal, SlowVal>&) { ok++; }, [&](std::exception_ptr) { rej++; });
+            run_free({settle([&] { d[0].resolve(SlowVal(1)); }), settle([&] { d[1].reject(TestExc(4)); })}, seed);
+            if (ok != 0) sym = "fulfil-continuation-spurious"; else if (rej != 1) sym = rej > 1 ? "reject-continuation-ran-twice" : "reject-continuation-lost";
+            break; }
+        default: {  // any-of: a fulfilment and a rejection at once: exactly one continuation, exactly once
+            name = "any-of-fulfil|reject";
+            std::vector<Async::Deferred<int>> d(2); std::vector<Async::Promise<int>> p;
+            for (int k = 0; k < 2; k++) p.emplace_back([&, k](Async::Deferred<int> dd) { d[(size_t)k] = std::move(dd); });
+            Async::whenAny(p[0], p[1]).then([&](const Async::Any&) { ok++; }, [&](std::exception_ptr) { rej++; });
+            run_free({settle([&] { d[0].resolve(7); }), settle([&] { d[1].reject(TestExc(5)); })}, seed);
+            if (ok + rej != 1) sym = ok + rej > 1 ? "two-outcomes-delivered" : "no-outcome-delivered";
+            break; }
+        }
+        if (sym.empty() && threw) sym = "settle-throws";
+        g_evals++;
+        count("rounds_" + name);
+        g_distinct.add(name + "#" + std::to_string(i % 1024));
+        if (!sym.empty()) violation("c11:mt:" + name + ":" + sym, "inputs of a combinator settled by different threads: " + name + ": " + sym, Json().num("i", i).num("scenario", sc).num("seed", (long long)g_opts.seed).done());
+    }
+}
+
 int main(int argc, char** argv) {
     g_opts = parse_opts(argc, argv);
     install_handlers();
@@ -281,7 +359,7 @@ int main(int argc, char** argv) {
     g_spin_max = (int)g_opts.num("spin", 50);
     std::string prop = g_opts.get("prop", "c12");
     g_skip = g_opts.num("skip", -1);
-    if (prop == "c12") run_c12(g_opts.cases); else run_c13(g_opts.cases);
+    if (prop == "c12") run_c12(g_opts.cases); else if (prop == "c11mt") { g_coop = false; run_c11mt(g_opts.cases); } else run_c13(g_opts.cases);
     g_distinct.flush();
     Json s; s.str("t", "sum").num("evaluations", g_evals);
     Json c; for (auto& kv : g_counts) c.num(kv.first, kv.second);
